@@ -145,6 +145,12 @@ func recC12(c *ctx) {
 		emit(vt.Ev{"op": "srgen", "entropy": vt.B(ent), "mini": vt.B(mb), "sk": vt.B(sb), "pair": vt.B(kb)})
 	}
 	// ---- decoders on boundary strings
+	var (
+		ruPub  sr25519.PublicKey
+		ruSec  sr25519.SecretKey
+		ruSig  sr25519.Signature
+		ruPair sr25519.KeyPair
+	)
 	dec := func(kind string, b []byte) {
 		e := vt.Ev{"op": "srdecode", "kind": kind, "in": vt.B(b)}
 		var out []byte
@@ -180,6 +186,45 @@ func recC12(c *ctx) {
 		if err == nil {
 			e["out"] = vt.B(out)
 		}
+		// the same input decoded into a LONG-LIVED receiver that was used before (public key derived, re-encoded): the
+		// outcome, the encoding and everything derived from the object must be those of a fresh object
+		reuse := true
+		pubOf := func(p *sr25519.PublicKey) []byte { b, _ := p.MarshalBinary(); return b }
+		switch kind {
+		case "pub":
+			err2 := ruPub.UnmarshalBinary(b)
+			reuse = (err2 == nil) == (err == nil)
+			if err2 == nil && err == nil {
+				reuse = bytes.Equal(pubOf(&ruPub), out)
+			}
+		case "sec":
+			err2 := ruSec.UnmarshalBinary(b)
+			reuse = (err2 == nil) == (err == nil)
+			if err2 == nil && err == nil {
+				fresh, _ := sr25519.NewSecretKeyFromBytes(b)
+				o2, _ := ruSec.MarshalBinary()
+				reuse = bytes.Equal(o2, out) && bytes.Equal(pubOf(ruSec.PublicKey()), pubOf(fresh.PublicKey())) &&
+					bytes.Equal(pubOf(ruSec.KeyPair().PublicKey()), pubOf(fresh.PublicKey()))
+			}
+		case "sig":
+			err2 := ruSig.UnmarshalBinary(b)
+			reuse = (err2 == nil) == (err == nil)
+			if err2 == nil && err == nil {
+				o2, _ := ruSig.MarshalBinary()
+				reuse = bytes.Equal(o2, out)
+			}
+		case "pair":
+			err2 := ruPair.UnmarshalBinary(b)
+			reuse = (err2 == nil) == (err == nil)
+			if err2 == nil && err == nil {
+				fresh, _ := sr25519.NewKeyPairFromBytes(b)
+				o2, _ := ruPair.MarshalBinary()
+				s2, _ := ruPair.SecretKey().MarshalBinary()
+				s1, _ := fresh.SecretKey().MarshalBinary()
+				reuse = bytes.Equal(o2, out) && bytes.Equal(pubOf(ruPair.PublicKey()), pubOf(fresh.PublicKey())) && bytes.Equal(s1, s2)
+			}
+		}
+		e["reuse"] = reuse
 		emit(e)
 	}
 	kp, _ := sr25519.GenerateKeyPair(bytes.NewReader(r.Bytes(4096)))
